@@ -141,6 +141,10 @@ def eval_case(case):
                     problems.append(('not-started', 'a process was not started exactly once'))
                 if any(r['target'] != 'run_file' for r in L):
                     problems.append(('wrong-target', 'task does not call run_file'))
+                missing = [os.path.basename(o) for o in outs if not os.path.exists(o)]
+                if missing:
+                    problems.append(('result-file-removed-by-another-job',
+                                     'after all jobs ran, result files %s no longer exist' % missing[:4]))
             nontrivial = (n_tasks % n_inputs != 0) or any(
                 trials % t for t in {n_tasks // n_inputs, tpi_max})
             res['nontrivial'] += int(nontrivial)
